@@ -1064,7 +1064,8 @@ pub fn build_cmap(recs: &[(u16, u16, usize)], subs: &[SrcSub]) -> Vec<u8> {
     for (p, e, i) in recs {
         p16(&mut o, *p as u32);
         p16(&mut o, *e as u32);
-        p32(&mut o, offs[*i] as u32);
+        // index usize::MAX: an offset beyond the table (unreadable subtable)
+        p32(&mut o, if *i == usize::MAX { pos as u32 + 64 } else { offs[*i] as u32 });
     }
     for e in enc {
         o.extend(e);
@@ -1198,6 +1199,15 @@ fn gen_record_font(r: &mut Rng, id: usize) -> RecFont {
     }
     if r.chance(1, 2) {
         recs.push((1, 0, if r.chance(1, 2) { i6 } else { i0 }));
+    }
+    // a retained record whose subtable cannot be read
+    if r.chance(1, 6) {
+        for key in [(3u16, 10u16), (0, 4), (0, 6)] {
+            if !recs.iter().any(|x| (x.0, x.1) == key) {
+                recs.push((key.0, key.1, usize::MAX));
+                break;
+            }
+        }
     }
     recs.sort();
     let cmap = build_cmap(&recs, &subs);
